@@ -243,6 +243,11 @@ def list_comprehension(eng, e, st):
             and len(e.elt.generators) == 1 and not e.elt.generators[0].ifs and not isinstance(e.elt.elt, ast.ListComp)):
         return _matrix_comprehension(eng, e, st)
     first = e.generators[0]
+    if (len(e.generators) == 1 and not first.ifs and isinstance(first.target, ast.Name) and isinstance(e.elt, ast.Call)
+            and isinstance(e.elt.func, ast.Name) and e.elt.func.id == "sorted" and len(e.elt.args) == 1
+            and isinstance(e.elt.args[0], ast.Name) and e.elt.args[0].id == first.target.id
+            and [k.arg for k in e.elt.keywords] == ["key"]):
+        return _sorted_rows_comprehension(eng, e, st)
     if not eng.simple_expr([first.iter]) and isinstance(first.iter, ast.Call) and st.pure is None:
         # python evaluates the outermost iterable once, before the loop: do the same (it may allocate, e.g. sorted())
         import copy as _copy
@@ -306,6 +311,66 @@ def list_comprehension(eng, e, st):
                              patterns=[inv(v)] + item_terms[:1]))
         cur.aux["last_filter"] = (src, inv, ln)
     out.append((cur, r))
+    return out
+
+
+def _sorted_rows_comprehension(eng, e, st):
+    """[sorted(row, key=...) for row in rows]: one new outer list and a block of new row lists; new row v is a
+    permutation (ghost bijection perm(v, .) / inv(v, .)) of rows[v] ordered by the key"""
+    from .engine import Frame
+    out = []
+    key = e.elt.keywords[0].value
+    for s, rows in eng.ev(e.generators[0].iter, st):
+        if s.status != "run":
+            out.append((s, None))
+            continue
+        if rows.ty.kind != "list" or rows.ty.arg.kind != "list":
+            raise _oos("sorted rows of something that is not a list of lists")
+        region = eng.alloc_region
+        ety = rows.ty.arg.arg
+        hsrc = s.heap
+        n1 = hsrc.len(rows)
+        R = eng.new_list(s, LIST(LIST(ety, region), region))
+        s.heap = s.heap.set_len(R, 0)
+        h1 = s.heap
+        base = h1.alloc
+        h2 = eng.havoc(s, Frame(alloc_lists=True), h1)
+        s.heap = h2
+        s.assume(h2.alloc == base + n1)
+        h2 = h2.set_len(R, n1)
+        rowsarr = fresh("srows", z3.ArraySort(I, I))
+        h2 = h2.set_elarr(R, rowsarr)
+        s.heap = h2
+        tag = fresh("srt")
+        perm = z3.Function(f"perm!{tag}", I, I, I)
+        inv = z3.Function(f"inv!{tag}", I, I, I)
+        v, k1, k2, q = fresh("v"), fresh("k"), fresh("k"), fresh("q")
+        src = lambda t: (hsrc.at(rows, t), rows.ty.arg.region or "c")  # noqa: E731
+        new = (base + v, region)
+        n = hsrc.len(src(v))
+        inr = z3.And(v >= 0, v < n1)
+        s.assume(forall([v], z3.Implies(inr, z3.And(z3.Select(rowsarr, v) == base + v, h2.len(new) == n)),
+                        patterns=[z3.Select(rowsarr, v)]))
+        s.assume(forall([v, k1], z3.Implies(z3.And(inr, k1 >= 0, k1 < n), z3.And(
+            perm(v, k1) >= 0, perm(v, k1) < n, inv(v, perm(v, k1)) == k1, h2.at(new, k1) == hsrc.at(src(v), perm(v, k1)))),
+            patterns=[h2.at(new, k1)]))
+        s.assume(forall([v, q], z3.Implies(z3.And(inr, q >= 0, q < n), z3.And(inv(v, q) >= 0, inv(v, q) < n,
+                                                                          perm(v, inv(v, q)) == q)),
+                        patterns=[inv(v, q)]))
+        le, side = _key_le(eng, s, key, from_int(ety, h2.at(new, k1)), from_int(ety, h2.at(new, k2)), [v, k1, k2],
+                           z3.And(inr, k1 >= 0, k1 < n, k2 >= 0, k2 < n))
+        s.assume(forall([v, k1, k2], z3.Implies(z3.And(inr, k1 >= 0, k1 < k2, k2 < n), le),
+                        patterns=[z3.MultiPattern(h2.at(new, k1), h2.at(new, k2))]))
+        s.aux["last_sort_rows"] = (perm, inv, base)
+        cur = s
+        for ok, exc, node in side:
+            okq = forall([v, k1, k2], z3.Implies(z3.And(inr, k1 >= 0, k1 < n, k2 >= 0, k2 < n), ok))
+            cur, bad = eng.split(cur, okq, exc if not str(exc).startswith("pre:") else "ContractPrecondition", node)
+            out.extend((b_, None) for b_ in bad)
+            if cur is None:
+                break
+        if cur is not None:
+            out.append((cur, Val(LIST(LIST(ety, region), region), R.t)))
     return out
 
 
@@ -858,11 +923,94 @@ def b_list(eng, e, st):
     return out
 
 
+def _key_le(eng, st, key, a: Val, b: Val, qvars, guard):
+    """python's `key(a) <= key(b)` for a key lambda returning an int or a tuple of ints, for the elements a, b
+    indexed by the bound variables `qvars` (in range under `guard`).  Evaluated like a generator clause: results of
+    calls made by the key (properties used through their contracts) become Skolem functions of the indices and
+    their facts are assumed for all indices (see _generalise).  -> (formula, side conditions)"""
+    from .values import CREATED
+    outer = st.pure
+    st.pure = []
+    depth = len(st.qstack)
+    start_pc, start_created = len(st.pc), len(CREATED)
+    st.qstack.extend(qvars)
+    q = Quant()
+    q.vars = list(qvars)
+    q.guard = [guard]
+    try:
+        kv = pure_eval(eng, key, st)
+        ra = eng.inline_with(kv.t, [a], st)
+        rb = eng.inline_with(kv.t, [b], st)
+        if len(ra) != 1 or len(rb) != 1:
+            raise _oos("sort key forks")
+        ka, kb = ra[0][1], rb[0][1]
+        xs = [eng.num(v) for v in (ka.t if ka.ty.kind == "tuple" else [ka])]
+        ys = [eng.num(v) for v in (kb.t if kb.ty.kind == "tuple" else [kb])]
+        le = z3.BoolVal(True)
+        for x, y in reversed(list(zip(xs, ys))):
+            le = z3.Or(x < y, z3.And(x == y, le))
+        q.elem = vbool(le)
+        side = _generalise(st, q, start_pc, start_created, st.pure)
+    finally:
+        st.pure = outer
+        del st.qstack[depth:]
+    return q.elem.t, side
+
+
+def _sorted_list(eng, e, s, lst, key):
+    """sorted(lst, key=lambda): a NEW list that is a permutation of lst (ghost bijection perm / inv) ordered by the
+    key -- python's sort is stable, which is NOT modelled (callers get `sorted by key`, nothing about ties)"""
+    h0 = s.heap
+    n = h0.len(lst)
+    r = eng.new_list(s, lst.ty.arg)
+    h = s.heap.set_len(r, n)
+    s.heap = h
+    tag = fresh("srt")
+    perm = z3.Function(f"perm!{tag}", I, I)
+    inv = z3.Function(f"inv!{tag}", I, I)
+    k1, k2, q = fresh("k"), fresh("k"), fresh("q")
+    s.assume(forall([k1], z3.Implies(z3.And(k1 >= 0, k1 < n), z3.And(perm(k1) >= 0, perm(k1) < n, inv(perm(k1)) == k1,
+                                                                  h.at(r, k1) == h0.at(lst, perm(k1)))),
+                    patterns=[h.at(r, k1)]))
+    s.assume(forall([q], z3.Implies(z3.And(q >= 0, q < n), z3.And(inv(q) >= 0, inv(q) < n, perm(inv(q)) == q)),
+                    patterns=[inv(q)]))
+    ety = lst.ty.arg
+    le, side = _key_le(eng, s, key, from_int(ety, h.at(r, k1)), from_int(ety, h.at(r, k2)), [k1, k2],
+                       z3.And(k1 >= 0, k1 < n, k2 >= 0, k2 < n))
+    s.assume(forall([k1, k2], z3.Implies(z3.And(k1 >= 0, k1 < k2, k2 < n), le),
+                    patterns=[z3.MultiPattern(h.at(r, k1), h.at(r, k2))]))
+    s.aux["last_sort"] = (perm, inv, r)
+    return r, side, (k1, k2, n)
+
+
 def b_sorted(eng, e, st):
-    """sorted(d) for a local dict: its keys in increasing order"""
+    """sorted(d) for a local dict: its keys in increasing order; sorted(list, key=lambda ...)"""
     out = []
-    if e.keywords:
-        raise _oos("sorted with key / reverse")
+    kws = {k.arg: k.value for k in e.keywords}
+    if set(kws) - {"key"}:
+        raise _oos("sorted with options other than key=")
+    if "key" in kws:
+        import copy as _copy
+        e2 = _copy.copy(e)
+        e2.keywords = []
+        for s, pos, kw in eng.eval_args(e2, st):
+            if s.status != "run":
+                out.append((s, None))
+                continue
+            lst = pos[0]
+            if lst.ty.kind != "list":
+                raise _oos(f"sorted({lst.ty}, key=...)")
+            r, side, (k1, k2, n) = _sorted_list(eng, e, s, lst, kws["key"])
+            cur = s
+            for ok, exc, node in side:
+                okq = forall([k1, k2], z3.Implies(z3.And(k1 >= 0, k1 < n, k2 >= 0, k2 < n), ok))
+                cur, bad = eng.split(cur, okq, exc if not str(exc).startswith("pre:") else "ContractPrecondition", node)
+                out.extend((b_, None) for b_ in bad)
+                if cur is None:
+                    break
+            if cur is not None:
+                out.append((cur, r))
+        return out
     for s, pos, kw in _args(eng, e, st):
         if s.status != "run":
             out.append((s, None))
@@ -983,6 +1131,15 @@ def _check_borrowed(eng, obj, st, node):
 
 def _list_method(eng, obj, meth, pos, s, e):
     k = obj.ty.kind
+    if k == "objdict":
+        if meth in ("items", "keys", "values") and not pos:
+            from .engine import IterView  # noqa: F401
+            return [(s, Val(Ty("iter"), eng.objdict_view(s, obj, meth)))]
+        raise _oos(f"dict method {meth}")
+    if k == "dictview":
+        if meth == "items" and not pos:
+            return [(s, Val(Ty("iter"), obj.t))]
+        raise _oos(f"dict method {meth} on a comprehension result")
     if k == "cachedict":
         if meth != "get" or len(pos) != 1 or pos[0].ty.kind != "str" or not isinstance(pos[0].t, str):
             raise _oos("cache access other than _cache.get(<constant method name>)")
@@ -1013,7 +1170,8 @@ def _list_method(eng, obj, meth, pos, s, e):
     n = h.len(l)
     if meth == "append":
         _check_borrowed(eng, obj, s, e)
-        v = pos[0]
+        v = eng.box(s, pos[0])
+        h = s.heap
         eng.check_region(obj, v, e)
         h2 = h.set_at(l, n, to_int(v), v.aux if v.ty.kind == "xint" else None).set_len(l, n + 1)
         s.heap = h2
